@@ -25,18 +25,22 @@ A4 = [b"", b"\x01", b"\x81", b"\x03"]
 V6 = [b"", b"\x01", b"\x02", b"\x81", b"\x80", b"\x00"]
 
 
-def lib_tx(version=1, locktime=0, sequence=0xFFFFFFFF):
+def lib_tx(version=1, locktime=0, sequence=0xFFFFFFFF, others=()):
+    """others: sequences of further inputs placed BEFORE the evaluated one (which is then input len(others))."""
     from buidl.script import Script
     from buidl.tx import Tx, TxIn, TxOut
 
-    tin = TxIn(b"\x00" * 32, 0, Script(), sequence)
-    tin._value = 0
-    tin._script_pubkey = Script()
-    return Tx(version, [tin], [TxOut(0, Script())], locktime)
+    tins = []
+    for j, sq in enumerate(list(others) + [sequence]):
+        tin = TxIn(bytes([j]) * 32, j, Script(), sq)
+        tin._value = 0
+        tin._script_pubkey = Script()
+        tins.append(tin)
+    return Tx(version, tins, [TxOut(0, Script())], locktime)
 
 
-def ref_tx(version=1, locktime=0, sequence=0xFFFFFFFF):
-    return {"version": version, "locktime": locktime, "segwit": False, "ins": [{"prev": b"\x00" * 32, "index": 0, "script": b"", "seq": sequence}], "outs": []}
+def ref_tx(version=1, locktime=0, sequence=0xFFFFFFFF, others=()):
+    return {"version": version, "locktime": locktime, "segwit": False, "ins": [{"prev": bytes([j]) * 32, "index": j, "script": b"", "seq": sq} for j, sq in enumerate(list(others) + [sequence])], "outs": []}
 
 
 def implemented_ops():
@@ -45,7 +49,7 @@ def implemented_ops():
     return sorted(bop.OP_CODE_FUNCTIONS)
 
 
-def lib_call_op(opcode, stack, alt, tx):
+def lib_call_op(opcode, stack, alt, tx, idx=0):
     """Call the real op function the way Script.evaluate calls it."""
     from buidl import op as bop
 
@@ -53,7 +57,7 @@ def lib_call_op(opcode, stack, alt, tx):
     if opcode in (107, 108):
         return f(stack, alt)
     if opcode in (172, 173, 174, 175, 177, 178):
-        return f(stack, tx, 0)
+        return f(stack, tx, idx)
     return f(stack)
 
 
@@ -169,11 +173,23 @@ def to_bytes(cmds):
     return txref.script_from_items(cmds)
 
 
-def lib_eval(cmds, tx):
+class EvalNotRepeatable(Exception):
+    pass
+
+
+def lib_eval(cmds, tx, idx=0):
+    """Evaluate the program; the SAME Script object is evaluated a second time and must give the same verdict and
+    still hold the same commands (evaluation must not consume or alter the script it evaluates)."""
     from buidl.script import Script
 
-    r = attempt(lambda: Script(list(cmds)).evaluate(tx, 0))
-    return (not isinstance(r, Rejected)) and bool(r)
+    sc = Script(list(cmds))
+    r = attempt(lambda: sc.evaluate(tx, idx))
+    v1 = (not isinstance(r, Rejected)) and bool(r)
+    r2 = attempt(lambda: sc.evaluate(tx, idx))
+    v2 = (not isinstance(r2, Rejected)) and bool(r2)
+    if v1 != v2 or list(sc.commands) != list(cmds):
+        raise EvalNotRepeatable(f"first evaluation {v1}, second evaluation of the same Script object {v2}, commands kept: {list(sc.commands) == list(cmds)}")
+    return v1
 
 
 def ref_eval(cmds, rtx=None):
@@ -512,6 +528,13 @@ def gen_timelock(tier, seed):
         for lt in LOCKTIMES:
             for sq in SEQS:
                 cases.append({"op": op, "lt": lt, "seq": sq})
+    # transactions with several inputs: the evaluated input is not input 0 and the other inputs carry other
+    # sequences (final / non-final / relative-time) - only the evaluated input's sequence may matter
+    for op in (177, 178):
+        for lt in (0, 100, 500000001):
+            for sq in (0, 100, (1 << 22) | 100, 0xFFFFFFFE, 0xFFFFFFFF):
+                for others in ([0xFFFFFFFF], [0], [0xFFFFFFFF, 5], [(1 << 22) | 100], [1 << 31]):
+                    cases.append({"op": op, "lt": lt, "seq": sq, "others": others})
     return cases
 
 
@@ -519,16 +542,18 @@ def run_timelock(case):
     res = Res()
     op = case["op"]
     only = case.get("only")
-    for ver in (0, 1, 2, 3, 2**31, 2**32 - 1):
-        tx = lib_tx(ver, case["lt"], case["seq"])
-        rtx = ref_tx(ver, case["lt"], case["seq"])
+    others = case.get("others", [])
+    idx = len(others)
+    for ver in (0, 1, 2, 3, 2**31, 2**32 - 1) if not others else (1, 2):
+        tx = lib_tx(ver, case["lt"], case["seq"], others)
+        rtx = ref_tx(ver, case["lt"], case["seq"], others)
         for operand in OPERANDS + ["empty"]:
             if only and only != [ver, operand]:
                 continue
             st = [] if operand == "empty" else [interp.num_encode(operand)]
-            ref = interp.run_program(bytes([op]), st, [], tx=rtx)
+            ref = interp.run_program(bytes([op]), st, [], tx=rtx, idx=idx)
             ls = list(st)
-            r = attempt(lib_call_op, op, ls, [], tx)
+            r = attempt(lib_call_op, op, ls, [], tx, idx)
             got = ("fail",) if isinstance(r, Rejected) or not r else ("ok", [bytes(x) for x in ls], [])
             vc = {"engine": "timelock", "case": dict(case, only=[ver, operand])}
             if got != ref:
@@ -539,15 +564,15 @@ def run_timelock(case):
                     cls = "fails-where-consensus-succeeds"
                 else:
                     cls = "accepts-where-consensus-fails"
-                res.violation(f"C07/timelock/{nm}/{cls}", vc, got, ref, f"{nm} with operand {operand}, locktime {case['lt']}, sequence {case['seq']}, version {ver}")
+                res.violation(f"C07/timelock/{nm}/{cls}" + ("/multi-input" if others else ""), vc, got, ref, f"{nm} with operand {operand}, locktime {case['lt']}, sequence {case['seq']}, version {ver}" + (f", evaluated input {idx} of {idx + 1}, other sequences {others}" if others else ""))
             else:
                 res.bulk("timelock==consensus(ok)" if ref[0] == "ok" else "timelock==consensus(fail)", 1, 1)
             # and through Script.evaluate (program level): <operand> CLTV/CSV DROP 1
             if operand != "empty":
                 prog = [interp.num_encode(operand), op, 0x75, 0x51]
-                v = interp.run_program(to_bytes(prog), tx=rtx)
+                v = interp.run_program(to_bytes(prog), tx=rtx, idx=idx)
                 verdict = v[0] == "ok"
-                g2 = lib_eval(prog, tx)
+                g2 = lib_eval(prog, tx, idx)
                 if g2 != verdict:
                     nm = "cltv" if op == 177 else "csv"
                     cls = "disable-flag-operand" if (op == 178 and operand >= 0 and operand & (1 << 31)) else ("rejects" if verdict else "accepts")
@@ -557,12 +582,24 @@ def run_timelock(case):
     return res
 
 
+def repeatable(engine, f):
+    def g(case):
+        try:
+            return f(case)
+        except EvalNotRepeatable as e:
+            res = Res()
+            res.violation(f"C07/{engine}/evaluation-not-repeatable", {"engine": engine, "case": case}, str(e), "same verdict, script unchanged", "evaluating the same Script object twice gives different results or alters its commands")
+            return res
+
+    return g
+
+
 def engines(tier, seed):
     return [
         Engine("opconf", gen_opconf, run_opconf, kind="E1", rule="every implemented non-signature, non-flow opcode called through OP_CODE_FUNCTIONS on every stack of depth <= 3 over 14 values and depth 4..6 (thorough ..7) over 4 values plus distinct-element stacks up to depth 9 (alt-stack depth 0..2 for the alt-stack ops): resulting stack/alt-stack or failure == reference consensus interpreter; operands > 4 bytes for numeric opcodes skipped"),
-        Engine("program", gen_program, run_program_case, kind="E2", rule="explicit-state search through Script.evaluate: states = (stack of depth <= 3 (thorough 4) over 6 values) x (alt-stack empty or one of 6 values); transitions = 6 pushes + every implemented non-signature opcode; each transition evaluated bare (verdict incl. final truthiness), with a trailing OP_1 when consensus aborts, and with an observer suffix that succeeds iff the resulting machine state equals the reference's"),
-        Engine("tours", gen_tours, run_tours, kind="E2", rule="transition tours: from every start state, programs of up to 36 chained transitions that stay inside the bounded state space, each evaluated end to end with an observer of the final state"),
-        Engine("ifnest", gen_ifnest, run_ifnest, kind="E1", rule="every properly nested IF/NOTIF/ELSE/ENDIF program with <= 5 tokens (thorough 6), nesting <= 3, over atoms {0,1,2,push 80,DROP,DUP}, under 6 initial-stack prefixes: verdict and resulting stack == consensus"),
+        Engine("program", gen_program, repeatable("program", run_program_case), kind="E2", rule="explicit-state search through Script.evaluate: states = (stack of depth <= 3 (thorough 4) over 6 values) x (alt-stack empty or one of 6 values); transitions = 6 pushes + every implemented non-signature opcode; each transition evaluated bare (verdict incl. final truthiness), with a trailing OP_1 when consensus aborts, and with an observer suffix that succeeds iff the resulting machine state equals the reference's"),
+        Engine("tours", gen_tours, repeatable("tours", run_tours), kind="E2", rule="transition tours: from every start state, programs of up to 36 chained transitions that stay inside the bounded state space, each evaluated end to end with an observer of the final state"),
+        Engine("ifnest", gen_ifnest, repeatable("ifnest", run_ifnest), kind="E1", rule="every properly nested IF/NOTIF/ELSE/ENDIF program with <= 5 tokens (thorough 6), nesting <= 3, over atoms {0,1,2,push 80,DROP,DUP}, under 6 initial-stack prefixes: verdict and resulting stack == consensus"),
         Engine("numcodec", gen_numcodec, run_numcodec, kind="E1", rule="encode_num minimal & decode inverse for every integer in [-70000,70000] and +-300 around +-2^k (k=7,8,15,16,23,24,31) and the ends of [-2^31+1, 2^31-1]; decode_num/encode_num vs reference on every byte string of length 0..2 and a structured slice of length 3 (thorough: all 2^24)"),
-        Engine("timelock", gen_timelock, run_timelock, kind="E1", rule="CLTV and CSV: full product of 10 locktimes x 14 sequences x 6 versions x 19 operands (+ empty stack) through the op function and through Script.evaluate == BIP65/BIP112 reference"),
+        Engine("timelock", gen_timelock, repeatable("timelock", run_timelock), kind="E1", rule="CLTV and CSV: full product of 10 locktimes x 14 sequences x 6 versions x 19 operands (+ empty stack) through the op function and through Script.evaluate == BIP65/BIP112 reference"),
     ]
